@@ -2,6 +2,8 @@ package variants
 
 import (
 	"math"
+	"strconv"
+	"strings"
 	"time"
 
 	cconv "github.com/pip-services3-gox/pip-services3-commons-gox/convert"
@@ -227,9 +229,18 @@ func (c *TypeUnsafeVariantOperations) convertFromString(
 	result := EmptyVariant()
 	switch newType {
 	case Integer:
+		// A whole number is parsed exactly: the generic converter goes through float64 and loses digits above 2^53
+		if exact, err := strconv.ParseInt(strings.TrimSpace(value.AsString()), 10, strconv.IntSize); err == nil {
+			result.SetAsInteger(int(exact))
+			return result, nil
+		}
 		result.SetAsInteger(cconv.IntegerConverter.ToInteger(value.AsString()))
 		return result, nil
 	case Long:
+		if exact, err := strconv.ParseInt(strings.TrimSpace(value.AsString()), 10, 64); err == nil {
+			result.SetAsLong(exact)
+			return result, nil
+		}
 		result.SetAsLong(int64(cconv.LongConverter.ToLong(value.AsString())))
 		return result, nil
 	case Float:
